@@ -281,11 +281,21 @@ func canReach(a, b ssa.Instruction, avoid map[ssa.Instruction]bool) bool {
 // exits of a function: Return instructions (panics excluded).
 func returnsOf(fn *ssa.Function) []*ssa.Return {
 	var out []*ssa.Return
-	allInstrs(fn, func(in ssa.Instruction) {
-		if r, ok := in.(*ssa.Return); ok {
-			out = append(out, r)
+	if len(fn.Blocks) == 0 {
+		return nil
+	}
+	// the Recover block (only entered after a recovered panic) is not reachable from entry
+	reach := reachFrom([]*ssa.BasicBlock{fn.Blocks[0]}, nil)
+	for _, b := range fn.Blocks {
+		if !reach[b] {
+			continue
 		}
-	})
+		for _, in := range b.Instrs {
+			if r, ok := in.(*ssa.Return); ok {
+				out = append(out, r)
+			}
+		}
+	}
 	return out
 }
 
